@@ -188,7 +188,7 @@ pub mod verif_proofs {
         }
         let y = DecryptionRatchetState { past_secrets: past, ratchet_head: RatchetSecretState { secret: Secret::from_bytes(pick(&secrets, head as usize)), generation: head } };
         let g = sym::any_below(8) as u32;
-        sym::assume(g <= head + max_fwd + 1 && (g as usize) < NG);
+        sym::assume(g <= head + max_fwd + 1 && (g as usize) + 1 < NG); // the new head (g + 1) must be a precomputed generation
         let res = DecryptionRatchet::secret_for_decryption(y, g, max_fwd, ooo);
         // specification
         let too_future = g > head + max_fwd;
